@@ -292,7 +292,7 @@ def check_C13(chk):
             lines, ok = eng.read_until(lambda l: l.startswith("bestmove"), 10)
             dt = (time.time() - t0) * 1000
             lat.append({"movetime": mt, "answered_after_ms": round(dt, 1), "ok": ok})
-            if (not ok or dt > mt + 2000) and nfail < 5:
+            if (not ok or dt > mt + 5000) and nfail < 5:
                 nfail += 1
                 chk.violation("go movetime %d was answered after %.0f ms (bestmove seen: %s)" % (mt, dt, ok), {"movetime": mt, "elapsed_ms": dt, "kind": "spec-oracle failure on the implementation"})
         eng.quit()
